@@ -90,7 +90,7 @@ int expr_match_guard_list_tailrec(unsigned int syn_level, symtab * stab,
 int expr_match_tailrec(unsigned int syn_level, symtab * stab,
                        expr * value, tailrec_op op)
 {
-    expr_tailrec(syn_level, stab, value->match.expr_value, op);
+    expr_tailrec(syn_level, stab, value->match.expr_value, TAILREC_OP_SKIP);
     if (value->match.match_guards != NULL)
     {
         expr_match_guard_list_tailrec(syn_level, stab, value->match.match_guards, op);
